@@ -153,4 +153,34 @@ PROPS = {
         "level_text": "For Vec, Queue (incl. overflowing push), SlotMap, FlatMap, String and RelocatableOption in the inline, heap and relocatable flavours, capacities 0..4, EVERY operation sequence up to the depth over the full trait surface is executed on the real container and compared after every step with the std reference model (return values, lengths, full content, error variants, unchanged state after a rejected operation); every element's drop count is checked after every history.",
         "level_note": "trusted: seqx enumeration, the reference models; bounded as stated",
     },
+    "C15": {
+        "level": "exploration",
+        "technique": "bounded-exhaustive enumeration of allocate/deallocate/grow/shrink histories over all small bucket layouts, region geometries and request layouts with an interval/pattern oracle; port-level slice publisher histories across segment growth",
+        "legs": [{"ws": "seq", "bin": "h_alloc"}],
+        "rule": "see coverage.legs[0].rule",
+        "assumptions": ["single-threaded histories; depth 4 (quick) / 5-6 + frontier to 10 (thorough) after the geometry-selecting Setup step", "bucket sizes 1..33 (+64,100,128,4096) x alignments 1..64 and 4096 incl. sizes that are not multiples of the alignment; region start misaligned by 0/1/align-1; room for 0..4 buckets plus a partial one", "port level: local service, [u8]/[u64] slices, strategies Static/BestFit/PowerOfTwo, up to 3 held samples"],
+        "design_ref": "DESIGN.md §3.3, §4 C15",
+        "level_text": "All histories up to the depth on the real bb-memory pool / fixed-size pool / bump / one-chunk allocators and the cal shm pool / bump allocators, for every listed bucket layout, geometry and request layout: every returned block is inside the region, aligned as requested, fully writable, disjoint from all live blocks (unique byte patterns re-verified after every step), failures are the documented errors and change nothing, freed buckets are reusable; at port level samples held across segment growth stay byte-identical.",
+        "level_note": "trusted: seqx enumeration, the interval model; bounded as stated; concurrency of the pool allocator is C09",
+    },
+    "C18": {
+        "level": "translation_validation",
+        "technique": "differential enumeration: every call sequence up to a depth is executed through the C API and through the Rust API (and mixed C/Rust participants on one service) and the observable outcomes are compared; exhaustive enumeration of every error enum variant through the binding's own conversion",
+        "legs": [{"ws": "seq", "bin": "h_ffi"}],
+        "rule": "see coverage.legs[0].rule",
+        "assumptions": ["the Rust API is the reference; single-threaded call sequences of depth 3-5 (quick) / 4-6 (thorough) on pub-sub, event and request-response, ipc and local service types, custom payload type details size {1,8,12} x alignment {1,4,8,16}", "the crate-private IntoCInt conversions are reached through the feature-guarded hook verif_hooks (add-only)", "handle double release is not attempted (undefined by contract)"],
+        "design_ref": "DESIGN.md §3.3, §4 C18",
+        "level_text": "Every generated call sequence (loan/write/send/receive/release, notify/wait, request/response, limit-exceeding calls, handle drops) is run once through iox2_* and once through iceoryx2::prelude, and with mixed C/Rust participants on the same service; after every call success/failure, C error code vs the code the binding assigns to the Rust error, payload bytes, lengths, header id classes, counts and loan capacity must agree. Every variant of every error enum (47 enums, exhaustive matches) is converted: total, never IOX2_OK, one-to-one, distinct printable names.",
+        "level_note": "trusted: seqx enumeration; the Rust API as reference; bounded depth",
+    },
+    "C19": {
+        "level": "exploration",
+        "technique": "exhaustive enumeration of all byte strings up to length 3 (and structured longer ones) for every semantic string type against an independently written predicate, all single-edit mutations of short accepted strings; bounded-exhaustive histories of two applications in all pairs of domain configurations",
+        "legs": [{"ws": "seq", "bin": "h_names"}],
+        "rule": "see coverage.legs[0].rule",
+        "assumptions": ["quick tier: all strings of length <=2 for every type, length 3 in full for FileName/Path/FilePath and over a 32 byte alphabet for the others; thorough: length 3 in full for all types", "isolation: ipc services, pairs from 6 prefix relations x 4 root relations (11 covering pairs quick, all 24 thorough), histories of depth 3-5"],
+        "design_ref": "DESIGN.md §3.3, §4 C19",
+        "level_text": "For FileName, RestrictedFileName, Path, FilePath, UserName, GroupName, Base64Url, ServiceName, NodeName: every enumerated byte string is accepted iff an independent predicate written from the documented rules accepts it, accepted values round-trip, every mutating operation on short accepted strings succeeds iff the edited bytes are valid and otherwise leaves the value unchanged, accepted file names cannot leave the root. For every pair of domain configurations (prefixes that are prefixes of one another included) two applications create/list/open/clean nodes and services: each sees exactly its own domain and every file/shm object lies under the acting side's root and prefix.",
+        "level_note": "trusted: seqx enumeration, the independent predicate; bounded as stated",
+    },
 }
